@@ -28,5 +28,5 @@ Definition w_uploadpin := cacheA ++ [OPut 20 PUploadPin (Some R) [(x3, [9])]].
 Definition w_set_batch := [req 10 R R; OPut 11 PUpload None [(x1, [1])]; req 12 R2 R2; OSet 20 SPin (Some R) [R; x1]].
 (** collection: no candidate known to chunkinfo -> gcSize forced to 0 *)
 Definition w_force := cacheA ++ cacheB ++ [OGcBegin 3 10000; OGcEnd []].
-(** collection: a chunk of the evicted file was removed before -> counted as collected anyway? no: not counted, GCounter was *)
+(** collection: a chunk of the evicted file was removed before the run: the run subtracts what it deleted (2), the entry it drops counted 3 *)
 Definition w_account := cacheA ++ cacheB ++ [OSet 20 SRemove None [x1]; OGcBegin 3 10000; OGcEnd pyrAB].
